@@ -87,3 +87,17 @@ package trie
 
 //@ func Database.Size
 //@   ensures[C04] @lockbalance lockdepth(addr(db.lock)) == old(lockdepth(addr(db.lock)))
+
+// ---- children before parents (C04) ---------------------------------------------------------------
+// commit writes a cached node to the batch only after every cached child was written (post-order),
+// so whatever prefix of the batch sequence reaches the disk, a node on disk has its subtree on disk.
+// putat/putclock are the ghost write clock of the batch (aquadb contracts).
+//@ func Database.commit
+//@   requires db != nil
+//@   ensures[C04] @postorder result == nil && has(db.nodes, hash) ==> (forall c common.Hash :: c != hash && has(db.nodes[hash].children, c) && has(db.nodes, c) ==> putat[c] < putat[hash])
+//@   ensures[C04] @put result == nil && has(db.nodes, hash) ==> old(putclock) <= putat[hash] && putat[hash] < putclock
+//@   ensures[C04] @touched forall x common.Hash :: putat[x] == old(putat[x]) || (old(putclock) <= putat[x] && putat[x] < putclock)
+//@   ensures[C04] @mono putclock >= old(putclock)
+//@   loop 1 invariant[C04] putclock >= old(putclock) && (forall x common.Hash :: putat[x] == old(putat[x]) || (old(putclock) <= putat[x] && putat[x] < putclock))
+//@   loop 1 invariant[C04] forall c common.Hash :: $seen(c) && has(db.nodes, c) ==> old(putclock) <= putat[c] && putat[c] < putclock
+//@   assigns putat, putclock, flushed, inferred
